@@ -3,6 +3,7 @@ package utils
 import (
 	"bytes"
 	"context"
+	"encoding/base64"
 	"encoding/json"
 	"errors"
 	"fmt"
@@ -624,76 +625,182 @@ func ConvertTypedValueToYANGType(schemaElem *sdcpb.SchemaElem, tv *sdcpb.TypedVa
 			}, nil
 		}
 	case schemaElem.GetLeaflist() != nil:
-		switch tv.Value.(type) {
+		lt := schemaElem.GetLeaflist().GetType()
+		var elems []*sdcpb.TypedValue
+		switch tv.GetValue().(type) {
 		case *sdcpb.TypedValue_LeaflistVal:
-			return tv, nil
+			elems = tv.GetLeaflistVal().GetElement()
+		case *sdcpb.TypedValue_JsonVal, *sdcpb.TypedValue_JsonIetfVal:
+			// a JSON array carries the elements, anything else is a single element
+			jv, err := decodeJsonTypedValue(tv)
+			if err != nil {
+				return nil, err
+			}
+			arr, ok := jv.([]any)
+			if !ok || lt.GetType() == "empty" {
+				arr = []any{jv}
+			}
+			for _, e := range arr {
+				lex, err := jsonScalarToString(e)
+				if err != nil {
+					return nil, err
+				}
+				elems = append(elems, &sdcpb.TypedValue{Value: &sdcpb.TypedValue_StringVal{StringVal: lex}})
+			}
+		default:
+			elems = []*sdcpb.TypedValue{tv}
+		}
+		// every element is carried in the YANG type of the leaf-list
+		result := &sdcpb.ScalarArray{Element: make([]*sdcpb.TypedValue, 0, len(elems))}
+		for _, e := range elems {
+			ce, err := convertScalarToYANGType(lt, e)
+			if err != nil {
+				return nil, err
+			}
+			result.Element = append(result.Element, ce)
 		}
 		return &sdcpb.TypedValue{
 			Timestamp: tv.GetTimestamp(),
-			Value: &sdcpb.TypedValue_LeaflistVal{
-				LeaflistVal: &sdcpb.ScalarArray{
-					Element: []*sdcpb.TypedValue{tv},
-				},
-			},
+			Value:     &sdcpb.TypedValue_LeaflistVal{LeaflistVal: result},
 		}, nil
 	case schemaElem.GetField() != nil:
-		switch schemaElem.GetField().GetType().GetType() {
-		default:
-			return tv, nil
-		case "string", "identityref":
-			return tv, nil
-		case "uint64", "uint32", "uint16", "uint8":
-			i, err := strconv.ParseUint(TypedValueToString(tv), 10, 64)
-			if err != nil {
-				return nil, err
-			}
-			ctv := &sdcpb.TypedValue{
-				Timestamp: tv.GetTimestamp(),
-				Value:     &sdcpb.TypedValue_UintVal{UintVal: i},
-			}
-			return ctv, nil
-		case "int64", "int32", "int16", "int8":
-			i, err := strconv.ParseInt(TypedValueToString(tv), 10, 64)
-			if err != nil {
-				return nil, err
-			}
-			ctv := &sdcpb.TypedValue{
-				Timestamp: tv.GetTimestamp(),
-				Value:     &sdcpb.TypedValue_IntVal{IntVal: i},
-			}
-			return ctv, nil
-		case "enumeration":
-			return tv, nil
-		case "union":
-			return tv, nil
-		case "boolean":
-			v, err := strconv.ParseBool(TypedValueToString(tv))
-			if err != nil {
-				return nil, err
-			}
-			return &sdcpb.TypedValue{Value: &sdcpb.TypedValue_BoolVal{BoolVal: v}}, nil
-		case "decimal64":
-			d64, err := ParseDecimal64(TypedValueToString(tv))
-			if err != nil {
-				return nil, err
-			}
-			return &sdcpb.TypedValue{
-				Value: &sdcpb.TypedValue_DecimalVal{
-					DecimalVal: d64,
-				},
-			}, nil
-		case "float":
-			v, err := strconv.ParseFloat(TypedValueToString(tv), 32)
-			if err != nil {
-				return nil, err
-			}
-			return &sdcpb.TypedValue{
-				Timestamp: tv.GetTimestamp(),
-				Value:     &sdcpb.TypedValue_FloatVal{FloatVal: float32(v)},
-			}, nil
-		}
+		return convertScalarToYANGType(schemaElem.GetField().GetType(), tv)
 	}
 	return nil, nil
+}
+
+// decodeJsonTypedValue decodes the JSON document of a JsonVal / JsonIetfVal, numbers are kept as json.Number
+func decodeJsonTypedValue(tv *sdcpb.TypedValue) (any, error) {
+	data := tv.GetJsonVal()
+	if _, ok := tv.GetValue().(*sdcpb.TypedValue_JsonIetfVal); ok {
+		data = tv.GetJsonIetfVal()
+	}
+	dec := json.NewDecoder(bytes.NewReader(data))
+	dec.UseNumber()
+	var v any
+	if err := dec.Decode(&v); err != nil {
+		return nil, err
+	}
+	return v, nil
+}
+
+// jsonScalarToString returns the lexical representation of a JSON scalar
+func jsonScalarToString(v any) (string, error) {
+	switch v := v.(type) {
+	case string:
+		return v, nil
+	case json.Number:
+		return v.String(), nil
+	case bool:
+		return strconv.FormatBool(v), nil
+	}
+	return "", fmt.Errorf("unexpected JSON value %v (%T) for a leaf", v, v)
+}
+
+// convertScalarToYANGType converts a single value, given as typed value, in its lexical
+// representation (StringVal, AsciiVal) or as a JSON scalar, to the typed value of the given YANG type.
+func convertScalarToYANGType(lt *sdcpb.SchemaLeafType, tv *sdcpb.TypedValue) (*sdcpb.TypedValue, error) {
+	var lex string
+	switch v := tv.GetValue().(type) {
+	case *sdcpb.TypedValue_StringVal:
+		lex = v.StringVal
+	case *sdcpb.TypedValue_AsciiVal:
+		lex = v.AsciiVal
+	case *sdcpb.TypedValue_JsonVal, *sdcpb.TypedValue_JsonIetfVal:
+		jv, err := decodeJsonTypedValue(tv)
+		if err != nil {
+			return nil, err
+		}
+		if lt.GetType() == "empty" {
+			// [null] (RFC7951) or {}
+			return &sdcpb.TypedValue{Timestamp: tv.GetTimestamp(), Value: &sdcpb.TypedValue_EmptyVal{}}, nil
+		}
+		lex, err = jsonScalarToString(jv)
+		if err != nil {
+			return nil, err
+		}
+	case *sdcpb.TypedValue_BytesVal:
+		if lt.GetType() != "binary" {
+			return tv, nil
+		}
+		// binary is carried in its lexical (base64) representation
+		return &sdcpb.TypedValue{
+			Timestamp: tv.GetTimestamp(),
+			Value:     &sdcpb.TypedValue_StringVal{StringVal: base64.StdEncoding.EncodeToString(v.BytesVal)},
+		}, nil
+	default:
+		return convertTypedScalarToYANGType(lt, tv)
+	}
+	if lt.GetType() == "leafref" && lt.GetLeafrefTargetType() == nil {
+		return &sdcpb.TypedValue{Timestamp: tv.GetTimestamp(), Value: &sdcpb.TypedValue_StringVal{StringVal: lex}}, nil
+	}
+	ctv, err := convertStringToTv(lt, lex, tv.GetTimestamp())
+	if err != nil {
+		return nil, err
+	}
+	if ctv == nil {
+		return nil, fmt.Errorf("unable to convert %q to type %q", lex, lt.GetType())
+	}
+	return ctv, nil
+}
+
+// convertTypedScalarToYANGType adjusts a value that already comes as a typed scalar (IntVal, UintVal, BoolVal, ...) to the given YANG type.
+func convertTypedScalarToYANGType(lt *sdcpb.SchemaLeafType, tv *sdcpb.TypedValue) (*sdcpb.TypedValue, error) {
+	switch lt.GetType() {
+	default:
+		return tv, nil
+	case "string", "identityref":
+		return tv, nil
+	case "uint64", "uint32", "uint16", "uint8":
+		i, err := strconv.ParseUint(TypedValueToString(tv), 10, 64)
+		if err != nil {
+			return nil, err
+		}
+		ctv := &sdcpb.TypedValue{
+			Timestamp: tv.GetTimestamp(),
+			Value:     &sdcpb.TypedValue_UintVal{UintVal: i},
+		}
+		return ctv, nil
+	case "int64", "int32", "int16", "int8":
+		i, err := strconv.ParseInt(TypedValueToString(tv), 10, 64)
+		if err != nil {
+			return nil, err
+		}
+		ctv := &sdcpb.TypedValue{
+			Timestamp: tv.GetTimestamp(),
+			Value:     &sdcpb.TypedValue_IntVal{IntVal: i},
+		}
+		return ctv, nil
+	case "enumeration":
+		return tv, nil
+	case "union":
+		return tv, nil
+	case "boolean":
+		v, err := strconv.ParseBool(TypedValueToString(tv))
+		if err != nil {
+			return nil, err
+		}
+		return &sdcpb.TypedValue{Value: &sdcpb.TypedValue_BoolVal{BoolVal: v}}, nil
+	case "decimal64":
+		d64, err := ParseDecimal64(TypedValueToString(tv))
+		if err != nil {
+			return nil, err
+		}
+		return &sdcpb.TypedValue{
+			Value: &sdcpb.TypedValue_DecimalVal{
+				DecimalVal: d64,
+			},
+		}, nil
+	case "float":
+		v, err := strconv.ParseFloat(TypedValueToString(tv), 32)
+		if err != nil {
+			return nil, err
+		}
+		return &sdcpb.TypedValue{
+			Timestamp: tv.GetTimestamp(),
+			Value:     &sdcpb.TypedValue_FloatVal{FloatVal: float32(v)},
+		}, nil
+	}
 }
 
 func convertUpdateTypedValue(_ context.Context, upd *sdcpb.Update, scRsp *sdcpb.GetSchemaResponse, leaflists map[string]*leafListNotification) (*sdcpb.Update, error) {
